@@ -74,9 +74,9 @@ Lemma run_exts_panic c p size ff : forall es checked st st' pc,
   run_exts c p size ff es checked st = WPanic st' pc -> pc = PcExtract /\ exists e, c_extract c e p = XPanic.
 Proof.
   induction es as [|e es IH]; intros checked st st' pc; cbn [run_exts]; [discriminate|].
-  destruct (c_required c e p); [|apply IH].
+  destruct (req c e p size ff); [|apply IH].
   destruct ((0 <? c_max_size c)%Z && negb checked).
-  - destruct (ff_stat ff); [discriminate|]. destruct (c_max_size c <? size)%Z; [discriminate|].
+  - destruct (ff_stat ff); [destruct (c_fatal c); discriminate|]. destruct (c_max_size c <? size)%Z; [discriminate|].
     destruct (run_extractor c e p ff (add_event st (EReq e p))) as [st1 sg|st1 pc1] eqn:E; [apply IH|].
     intros H; inversion H; subst. apply run_extractor_panic in E as [-> E]. split; [reflexivity|exists e; exact E].
   - destruct (run_extractor c e p ff (add_event st (EReq e p))) as [st1 sg|st1 pc1] eqn:E; [apply IH|].
@@ -166,7 +166,7 @@ Qed.
 
 (* the engine calls Extract without recover: a panicking extractor takes the scan down *)
 Theorem engine_propagates_panic_lemma c p n k sz d ff e st :
-  c_extract c e p = XPanic -> c_exts c = [e] -> c_required c e p = true -> kind_accepted c k = true ->
+  c_extract c e p = XPanic -> c_exts c = [e] -> req c e p sz ff = true -> kind_accepted c k = true ->
   c_gitignore c = false -> no_limits c = true -> ff_clean ff = true -> (c_max_size c <= 0)%Z ->
   exists st', handle_file c p (File n k sz d ff) false st = WPanic st' PcExtract.
 Proof.
